@@ -138,6 +138,12 @@ func c10Dispatch(c *fw.Case, ts *pdus.Tables, t *pdus.Type) {
 		img = append(img, 0) // the library's own 13-octet form
 		binary.BigEndian.PutUint32(img, uint32(len(img)))
 	}
+	if c.R.Bool() {
+		// "every encoded PDU its package can produce": the library's own image of the same values
+		if b, eerr, psig, _ := encode(c, pdus.Build(t.Lib(), v)); psig == "" && eerr == nil {
+			img = b
+		}
+	}
 	var p sms.PDU
 	var err error
 	d := pdus.Dispatchers[t.Family]
